@@ -186,9 +186,13 @@ func (fa *FuncAnalysis) buildMemory() {
 		for _, in := range b.Instrs {
 			switch x := in.(type) {
 			case *ssa.MakeClosure:
-				for _, bv := range x.Bindings {
+				cf, _ := x.Fn.(*ssa.Function)
+				for i, bv := range x.Bindings {
 					if a, ok := bv.(*ssa.Alloc); ok {
-						fa.capt[a] = true
+						// only closures that may write the captured variable make it volatile
+						if cf == nil || i >= len(cf.FreeVars) || freeVarMayBeWritten(cf, cf.FreeVars[i], 0) {
+							fa.capt[a] = true
+						}
 					}
 				}
 			case *ssa.Store:
@@ -265,6 +269,52 @@ func (fa *FuncAnalysis) buildMemory() {
 		fa.loadRes = newRes
 		fa.terms = map[ssa.Value]*Term{}
 	}
+}
+
+// freeVarMayBeWritten: the closure stores through the captured pointer, or lets it escape.
+func freeVarMayBeWritten(fn *ssa.Function, fv *ssa.FreeVar, depth int) bool {
+	if depth > 3 || fv.Referrers() == nil {
+		return true
+	}
+	var check func(v ssa.Value) bool
+	check = func(v ssa.Value) bool {
+		refs := v.Referrers()
+		if refs == nil {
+			return true
+		}
+		for _, r := range *refs {
+			switch x := r.(type) {
+			case *ssa.Store:
+				if x.Addr == v || x.Val == v {
+					return true
+				}
+			case *ssa.UnOp:
+				// load: fine
+			case *ssa.FieldAddr:
+				if check(x) {
+					return true
+				}
+			case *ssa.IndexAddr:
+				if check(x) {
+					return true
+				}
+			case *ssa.MakeClosure:
+				cf, _ := x.Fn.(*ssa.Function)
+				for i, b := range x.Bindings {
+					if b == v {
+						if cf == nil || i >= len(cf.FreeVars) || freeVarMayBeWritten(cf, cf.FreeVars[i], depth+1) {
+							return true
+						}
+					}
+				}
+			case *ssa.DebugRef:
+			default:
+				return true // passed to a call, converted, stored elsewhere...
+			}
+		}
+		return false
+	}
+	return check(fv)
 }
 
 func resEqual(a, b map[*ssa.UnOp]loadResolution) bool {
